@@ -521,6 +521,7 @@ void ClipperOffset::DoGroupOffset(Group& group)
 			continue;
 		} // end of offsetting a single point
 
+		end_type_ = group.end_type; // the override below is for this path only
 		if ((pathLen == 2) && (group.end_type == EndType::Joined))
 			end_type_ = (group.join_type == JoinType::Round) ?
 			  EndType::Round :
